@@ -151,6 +151,11 @@ def disk_hit_aborts(ctx, tree, store, conf, rnd):
         quiesce_async = [quiesce]
         base = asyncio.run(main())
         fds = quiesce()
+        for _ in range(3):           # asynchronous disk I/O threads may still be closing files: look again before calling it a leak
+            if fds <= base:
+                break
+            time.sleep(1.5)
+            fds = quiesce()
         alive = sq.alive()
     finally:
         sq.stop()
